@@ -76,8 +76,8 @@ MODEL_DEV_LENGTH = set()
 # how the handler is APPLIED to a document - deviations still switched on in the cfgs (Dev_identity, Dev_emBelowV4, Dev_encDirect,
 # Dev_sig, Dev_cryptNoParams): kinds of items lopdf transforms differently, forms of the dictionary it reads differently;
 # set() / set() once the repairs are applied and the switches are FALSE
-MODEL_DEV_KINDS = {"str.sigcontents", "stream.cryptid", "identity"}
-MODEL_DEV_FORMS = {"enc.direct", "em.false", "identity"}          # repaired by 1a492b6 (V5.256) and ce1e5ee (V1.40, V4.absent)
+MODEL_DEV_KINDS = set()
+MODEL_DEV_FORMS = set()          # repaired by 1a492b6 (V5.256) and ce1e5ee (V1.40, V4.absent)
 
 MUTANTS = [("MC_SecurityAlgorithms_mut_alg7.cfg", "AuthOwnerComplete"), ("MC_SecurityAlgorithms_mut_alg12.cfg", "AuthOwnerComplete"),
            # "the conversion table is built on the first call and kept": refuted by a history WinAnsi/MacRoman/Standard-first
